@@ -7,7 +7,7 @@ Mirrors (branch by branch) `pkg/multiterm/termscaler/scale.go`, `pkg/multiterm/t
 `pkg/color/coloring.go` (`Wrap`, `Write`, `HighlightSingleRune`, `StrLen`),
 `pkg/multiterm/termrenderers/{table,histoWriter,bargraph,datatable,heatmap,spark}.go`, the render callbacks of
 `cmd/{histo,bargraph,reduce}.go` and `pkg/multiterm/termformat/scaleformatter.go` as they are
-AFTER the repairs b2c2a9f, 7206d40, 0b7fa09, a20c03a, b1ca348, 9780d5d, 6408ebf, c54b92c, 73473fc, writing into the
+AFTER the repairs b2c2a9f, 7206d40, 0b7fa09, a20c03a, b1ca348, 9780d5d, 6408ebf, c54b92c, 73473fc, 7b183e0, writing into the
 `VirtualTerm` model of C20.  (`termformat/expression.go` is in `C14Format.lean`.)
 
 * Every Go panic source is an explicit `.error` (index out of range, slice bounds, negative
@@ -444,14 +444,15 @@ structure Histo where
   maxVal : Int := 0
   total : Int := 0
   textSpacing : Int := 16
-  items : List (Bytes × Int)
+  /-- `items []histoPair`: `none` is the zero value (`set == false`, an unused line), `some (key, val)` a written row -/
+  items : List (Option (Bytes × Int))
   showBar : Bool
   showPct : Bool
   scaler : Scaler
   fmt : Fmt
 
 def Histo.new (maxLines : Int) (showBar showPct : Bool) (scaler : Scaler) (fmt : Fmt) : Res Histo := do
-  let items ← makeSlice maxLines (([] : Bytes), (0 : Int))
+  let items ← makeSlice maxLines (none : Option (Bytes × Int))
   pure { items, showBar, showPct, scaler, fmt }
 
 /-- the canonical stand-in of `[%4.1f%%]` (float formatting is outside the model) -/
@@ -467,10 +468,15 @@ def Histo.writeLine {α : Type} (A : Arith α) (env : Env) (h : Histo) (vt : Vir
     vt.writeForLine line (s ++ [32] ++ colorWrite env cBlue bar)
   else vt.writeForLine line s
 
-/-- `HistoWriter.fullRender` -/
+/-- one iteration of `fullRender`'s loop: `if item.set { s.writeLine(idx, item.key, item.val) }` -/
+def Histo.renderItem {α : Type} (A : Arith α) (env : Env) (h : Histo) (v : VirtualTerm) (it : Option (Bytes × Int) × Nat) : Res VirtualTerm :=
+  match it.1 with
+  | some (key, val) => h.writeLine A env v it.2 key val
+  | none => pure v
+
+/-- `HistoWriter.fullRender` (after 7b183e0: every written line, whatever its value) -/
 def Histo.fullRender {α : Type} (A : Arith α) (env : Env) (h : Histo) (vt : VirtualTerm) : Res VirtualTerm :=
-  h.items.zipIdx.foldlM (fun (v : VirtualTerm) (it : (Bytes × Int) × Nat) =>
-    if it.1.2 > 0 then h.writeLine A env v it.2 it.1.1 it.1.2 else pure v) vt
+  h.items.zipIdx.foldlM (h.renderItem A env) vt
 
 /-- `HistoWriter.WriteForLine(line, key, val)` -/
 def Histo.writeForLine {α : Type} (A : Arith α) (env : Env) (h : Histo) (vt : VirtualTerm) (line : Int) (key : Bytes) (val : Int) :
@@ -480,7 +486,7 @@ def Histo.writeForLine {α : Type} (A : Arith α) (env : Env) (h : Histo) (vt : 
     let klen := strLen env key
     let (ts, need) := if klen > h.textSpacing then (klen, true) else (h.textSpacing, false)
     let (mv, need) := if val > h.maxVal then (val, true) else (h.maxVal, need)
-    let items ← setIdx h.items line (key, val)
+    let items ← setIdx h.items line (some (key, val))
     let h' := { h with textSpacing := ts, maxVal := mv, items := items }
     if need then
       let vt' ← h'.fullRender A env vt
